@@ -331,7 +331,8 @@ func init() {
 	registerIntrinsic("(*"+qPkg+"Quantity).AsApproximateFloat64", func(i *interpreter, fr *frame, fn *ssa.Function, a []value) value {
 		m := i.qMilli(recv(a))
 		if s, ok := m.(symInt); ok {
-			return symFloat{t: &Term{S: "(fp.div RNE ((_ to_fp 11 53) RNE (to_real " + s.t.S + ")) " + fpConst(1000).S + ")", Sort: SFP}}
+			// exactly milli/1000 for |milli| < 2^53: comparisons with constants are decided with integers
+			return symFloat{t: &Term{S: "(fp.div RNE ((_ to_fp 11 53) RNE (to_real " + s.t.S + ")) " + fpConst(1000).S + ")", Sort: SFP}, num: s.t, den: 1000}
 		}
 		return float64(asInt64(m)) / 1000
 	})
